@@ -97,10 +97,14 @@ def source_grep() -> list[str]:
     """Forbidden constructs in the Lean sources (outside comments)."""
     hits = []
     for f in sorted(LEAN.glob("**/*.lean")):
-        if ".lake" in f.parts:
-            continue
+        if ".lake" in f.parts or (f.parent == LEAN and f.name.startswith("tmp")):
+            continue  # build output; the audit file of a concurrently running check
         in_block = 0
-        for n, line in enumerate(f.read_text().splitlines(), 1):
+        try:
+            text = f.read_text()
+        except FileNotFoundError:  # removed by a concurrent check between glob and read
+            continue
+        for n, line in enumerate(text.splitlines(), 1):
             code = line
             # strip block comments (no nesting subtleties needed for our sources)
             out = ""
